@@ -131,10 +131,14 @@ def source_err(gi, name, err, memo):
     if name in memo:
         return memo[name]
     g = gi[name]
-    e = err if g.get("contours") else 0.0
-    for c in g.get("components", []):
-        if c["base"] in gi:
-            e = max(e, frob(c["t"][:4]) * source_err(gi, c["base"], err, memo))
+    if g.get("contours"):
+        # own contours: a mixed glyph is decomposed *before* the conversion, so the whole glyph is converted in its own space
+        e = err
+    else:
+        e = 0.0
+        for c in g.get("components", []):
+            if c["base"] in gi:
+                e = max(e, frob(c["t"][:4]) * source_err(gi, c["base"], err, memo))
     memo[name] = e
     return e
 
